@@ -29,18 +29,19 @@ RULE = RULE + "; plays that leave the model's territory are continued for 30 cal
 
 
 def snap(c, with_trials=True):
-    js = sorted(c.jumpers, key=lambda j: j.bib)
+    js = sorted(c.jumpers, key=lambda j: str(j.bib))
     s = {
         'state': c.state,
         'heights': [str(h) for h in c.heights],
         # raw cards: a trailing empty cell is a difference the log replay must reproduce too (only the card
         # round trip, which drops pass marks, strips them - see no_pass)
-        'cards': {j.bib: list(j.attempts_by_height) for j in js},
-        'bests': {j.bib: str(j.highest_cleared) for j in js},
-        'places': {j.bib: j.place for j in js},
+        # bibs as text: a card is text, so a number bib comes back from an import as its digits
+        'cards': {str(j.bib): list(j.attempts_by_height) for j in js},
+        'bests': {str(j.bib): str(j.highest_cleared) for j in js},
+        'places': {str(j.bib): j.place for j in js},
     }
     if with_trials:
-        s['trials'] = [[t[0], str(t[1]), t[2]] for t in c.trials]
+        s['trials'] = [[str(t[0]), str(t[1]), t[2]] for t in c.trials]
     return s
 
 
@@ -59,8 +60,9 @@ def diff(a, b):
 def build(case):
     """Rebuild the competition of a case by plain calls; refused calls are part of the history and stay refused."""
     c = hjimpl.new_comp()
+    intb = any(isinstance(b, int) for b in case.get('bibs', ()))
     for raw in case['calls']:
-        hjimpl.apply(c, hjsearch.dec(raw))
+        hjimpl.apply(c, hjsearch.dec(raw, intb))
     return c
 
 
@@ -82,7 +84,7 @@ def interleavings(trials, limit, draw):
     queues = {}
     for op, b in trials:
         queues.setdefault(b, []).append((op, b))
-    bibs = sorted(queues)
+    bibs = sorted(queues, key=str)
     lens = [len(queues[b]) for b in bibs]
     # multinomial count
     total = 1
@@ -270,8 +272,11 @@ def play_and_check(ctx, draw):
             marks.append(len(p.all_calls))
         elif status.startswith('truncated:') and not vs:
             cut.append(status)
-    p = hjplay.random_play(draw, on_call, noise=12, nmin=1, lenient=True)
+    ib = draw(8) == 0          # numbers as bibs (start lists usually use them)
+    p = hjplay.random_play(draw, on_call, noise=12, nmin=1, lenient=True, int_bibs=ib)
     ctx.label('play')
+    if ib:
+        ctx.label('play-number-bibs')
     if cut:
         # the play left the territory the model speaks about: go on for a while with arbitrary calls and hold the live
         # object to its own log replay (the one clause that is about every reachable competition)
